@@ -241,6 +241,14 @@ func (m *SigningProposalFSM) actionConfirmationError(inEvent fsm.Event, args ...
 		return
 	}
 
+	// a failure report belongs to the batch it names: the late report of a slow participant for a
+	// batch that is over must not be booked on the batch being signed now (it marked the participant
+	// failed there, and its correct answer to the current batch was then refused)
+	if request.BatchID != "" && request.BatchID != m.payload.SigningProposalPayload.BatchID {
+		err = errors.New("{BatchID} is not the batch being signed")
+		return
+	}
+
 	signingProposalParticipant := m.payload.SigningQuorumGet(request.ParticipantId)
 
 	// TODO: Move to methods
